@@ -151,9 +151,9 @@ def _template_item(w: Random, c: _Counter, where: str) -> dict:
 
 def _post(w: Random, c: _Counter, depth: int) -> dict:
     r = w.random()
-    if r < 0.6 or depth >= 3:
+    if r < 0.55 or depth >= 3:
         return _template_item(w, c, "post")
-    if r < 0.8:
+    if r < 0.7:
         return {"type": "nest", "items": [_post(w, c, depth + 1) for _ in range(w.randint(1, 2))]}
     if r < 0.9:
         # a format-string template that walks from the objects it is given to module globals; reading the lazily
